@@ -27,6 +27,13 @@ func execSplines(g *graph.DGraph, routes []routableEdge) {
 			imonitor.Log("route-node", n)
 		}
 
+		if len(rects) <= 1 {
+			// a single rectangle is convex (and without any there is no space between the end points):
+			// the shortest path is the straight line
+			e.Points = geom.MakeSpline(start, end).Float64Slice()
+			continue
+		}
+
 		path := geom.Shortest(start, end, rects)
 		// remember the order of the elements in the path slice is from end to start
 
@@ -50,75 +57,81 @@ func execSplines(g *graph.DGraph, routes []routableEdge) {
 	}
 }
 
-func buildRects(g *graph.DGraph, r routableEdge) (rects []geom.Rect) {
+func buildRects(g *graph.DGraph, r routableEdge) []geom.Rect {
+	var rects []geom.Rect
+	var around []bool // whether rects[i] is the rectangle around a virtual node
 	for i := 1; i < len(r.ns); i++ {
 		top, btm := r.ns[i-1], r.ns[i]
 		switch {
 
 		case !top.IsVirtual && !btm.IsVirtual:
 			// add one rectangle that spans from the leftmost point to the rightmost point of the two nodes
-			r := geom.Rect{
+			rects = append(rects, geom.Rect{
 				TL: geom.P{min(top.X, btm.X), top.Y + top.H},
 				BR: geom.P{max(top.X+top.W, btm.X+btm.W), btm.Y},
-			}
-			rects = append(rects, r)
+			})
+			around = append(around, false)
 
 		case btm.IsVirtual:
 			// add one rectangle that spans the entire space between the top and bottom layers
 			// and one that spans the space around the virtual node
 			tl := g.Layers[top.Layer]
 			bl := g.Layers[btm.Layer]
-			rects = append(rects, rectBetweenLayers(tl, bl))
-			rects = append(rects, rectVirtualNode(btm, bl))
+			rects = append(rects, rectBetweenLayers(top, tl, bl), rectVirtualNode(btm, bl))
+			around = append(around, false, true)
 
 		case top.IsVirtual:
 			tl := g.Layers[top.Layer]
 			bl := g.Layers[btm.Layer]
-			rects = append(rects, rectBetweenLayers(tl, bl))
+			rects = append(rects, rectBetweenLayers(top, tl, bl))
+			around = append(around, false)
 		}
 	}
 
-	return
+	// the rectangle around a virtual node may stick out of the space between the layers (first or last in its layer):
+	// widen the rectangles above and below it so that the corridor stays as wide as the rectangle where they meet
+	for i, rect := range rects {
+		if around[i] {
+			for _, j := range []int{i - 1, i + 1} {
+				rects[j].TL.X = min(rects[j].TL.X, rect.TL.X)
+				rects[j].BR.X = max(rects[j].BR.X, rect.BR.X)
+			}
+		}
+	}
+	// a rectangle without height (zero layer spacing, or a layer of zero-height nodes) adds nothing to the corridor
+	return slices.DeleteFunc(rects, func(r geom.Rect) bool { return r.Height() <= 0 })
 }
 
-func rectBetweenLayers(l1, l2 *graph.Layer) geom.Rect {
+// the rectangle spans the gap between the two layers; it starts right below top when top is the edge's source node,
+// or at the bottom of the layer l1 when top is a virtual node (where the rectangle around the virtual node ends)
+func rectBetweenLayers(top *graph.Node, l1, l2 *graph.Layer) geom.Rect {
 	h1, h2 := l1.Head(), l2.Head()
-	t1, t2 := l2.Tail(), l2.Tail()
+	t1, t2 := l1.Tail(), l2.Tail()
+	y := top.Y + top.H
+	if top.IsVirtual {
+		y = top.Y + l1.H
+	}
 	return geom.Rect{
-		TL: geom.P{min(h1.X, h2.X), h1.Y + h1.H},
-		BR: geom.P{max(t1.X+t1.W, t2.X+t2.W), t2.Y},
+		TL: geom.P{min(h1.X, h2.X), y},
+		BR: geom.P{max(t1.X+t1.W, t2.X+t2.W), h2.Y},
 	}
 }
 
+// the rectangle spans the full height of the virtual node's layer
 func rectVirtualNode(vn *graph.Node, vl *graph.Layer) geom.Rect {
-	switch p := vn.LayerPos; {
-	case p == 0:
-		// this p+1 access is safe: a layer cannot contain only one virtual node
-		n := vl.Nodes[p+1]
-		return geom.Rect{
-			TL: geom.P{vn.X - 10, n.Y},
-			BR: geom.P{n.X, n.Y + n.H},
-		}
-
-	case p == vl.Len()-1:
-		// this p-1 access is safe: a layer cannot contain only one virtual node
+	left, right := vn.X-10, vn.X+10
+	if p := vn.LayerPos; p > 0 && p < vl.Len()-1 {
+		n1, n2 := vl.Nodes[p-1], vl.Nodes[p+1]
+		d := n2.X - (n1.X + n1.W)
+		left, right = n1.X+n1.W+d/3, n2.X-d/3
+	} else if p > 0 {
 		n := vl.Nodes[p-1]
-		return geom.Rect{
-			TL: geom.P{n.X + n.W, n.Y},
-			BR: geom.P{vn.X + 10, n.Y + n.H},
-		}
-
-	default:
-		n1 := vl.Nodes[p-1]
-		n2 := vl.Nodes[p+1]
-		return rectBetweenNodes(n1, n2)
+		left = n.X + n.W
+	} else if p < vl.Len()-1 {
+		right = vl.Nodes[p+1].X
 	}
-}
-
-func rectBetweenNodes(n1, n2 *graph.Node) geom.Rect {
-	d := n2.X - (n1.X + n1.W)
 	return geom.Rect{
-		TL: geom.P{n1.X + n1.W + d/3, n1.Y},
-		BR: geom.P{n2.X - d/3, n2.Y + n2.H},
+		TL: geom.P{left, vn.Y},
+		BR: geom.P{right, vn.Y + vl.H},
 	}
 }
